@@ -80,16 +80,30 @@ def rand_global(rng, icon_size=None):
         icon_size = rng.choice([0, 1, 100, 542, 1466, 3000, 20000]) if rng.random() < 0.7 else rng.randint(0, 32768)
     hw = ucs2("".join(rng.choice("0123456789ABCDEF-") for _ in range(rng.choice([0, 1, 8, 31, 32, 36]))))[:64]
     fn = ucs2("".join(rng.choice("abcdefgh XYZ") for _ in range(rng.choice([0, 1, 7, 20, 64]))))
-    return dict(hostname=rand_name(rng), url=rand_name(rng, 70, True), uuid=bytes(rng.getrandbits(8) for _ in range(16)),
-                hwid=hw, icon_seed=rng.randint(1, 2 ** 31), icon_size=icon_size, fname=fn,
-                conv=rng.randint(0, 1), fail=0)
+    r = rng.random()
+    if r < 0.08:
+        fn += b"\0\0" * rng.choice([1, 1, 2, 5])               # handed out with its terminator / zero padding counted in the size
+    elif r < 0.12:
+        fn = b"\0" * rng.choice([1, 2, 3, 8, 40])              # nothing but zero bytes
+    elif r < 0.18:
+        fn = bytes(rng.choice([0, 0, 0xFF, 0x41, rng.getrandbits(8)]) for _ in range(rng.choice([1, 2, 3, 9, 33, 200])))
+    g = dict(hostname=rand_name(rng), url=rand_name(rng, 70, True), uuid=bytes(rng.getrandbits(8) for _ in range(16)),
+             hwid=hw, icon_seed=rng.randint(1, 2 ** 31), icon_size=icon_size, fname=fn,
+             conv=rng.randint(0, 1), fail=0)
+    if 0 < icon_size <= 4000 and rng.random() < 0.1:
+        # image data with runs of zero bytes, also at its very end
+        body = bytearray(W.fill_stream(icon_size, g["icon_seed"]))
+        k = rng.choice([1, 2, 4, icon_size]) if icon_size > 4 else icon_size
+        body[-k:] = b"\0" * k
+        g["icon"] = bytes(body)
+    return g
 
 
 def global_kw(g):
     kw = dict(hostname=g["hostname"], url=g["url"], uuid=g["uuid"], hwid=g["hwid"],
               fname=g["fname"], conv=g.get("conv", 0), fail=g.get("fail", 0))
     if g.get("icon") is not None:
-        kw["icon"] = g["icon"]
+        kw["icon"] = g["icon"].hex() or "-"
     else:
         kw["icon"] = "@%d:%d" % (g["icon_seed"], g["icon_size"]) if g["icon_size"] else "-"
     return kw
@@ -145,6 +159,10 @@ def f_discover(rng, net, m=None, tos=None, ack=None, bridged=None, gen=None, xid
     ack = (rng.random() < 0.5) if ack is None else ack
     if ack and n:
         sts[rng.randrange(n)] = net.own
+    if rng.random() < 0.06:
+        # delivered as unicast (an access point converting multicast to unicast, or a tool addressing one station): the
+        # responder does not look at a Discover's destination
+        return W.discover(real, gen, xid, sts, tos=tos, eth_src=eth, eth_dst=net.own, real_dst=rng.choice([W.BCAST, net.own]))
     return W.discover(real, gen, xid, sts, tos=tos, eth_src=eth)
 
 
